@@ -9,6 +9,9 @@ rest = sys.argv[2:]
 def sh(*a, **k): return subprocess.run(*a, **k)
 if sh(["git","-C","/repo","status","--porcelain","--untracked-files=no"],capture_output=True,text=True).stdout.strip():
     print("repo dirty; refusing"); sys.exit(3)
+evidence_backup = {}
+import glob
+for f in glob.glob("/verif/evidence/*.json"): evidence_backup[f] = open(f).read()
 try:
     if mid in cat:
         m = cat[mid]
@@ -31,3 +34,5 @@ try:
     if r.returncode == 2: print(r.stderr[-2000:])
 finally:
     sh(["git","-C","/repo","checkout","--","."])
+    # evidence is only ever what a run against the unchanged tree wrote
+    for f, t in evidence_backup.items(): open(f, "w").write(t)
